@@ -18,10 +18,9 @@ This file models the code with `fixes/D5.diff` applied (the garbage collector
 chooses the oldest among the NON-current revisions).  `oldestAny` is the choice
 the unfixed tree makes; it is only used for the negation witness in Props.
 
-Not modelled: events, logging, the package's Installed/Healthy conditions (no
-control flow depends on them), pull secrets, runtime-config fields copied to the
-revision, resourceVersions (a single controller owns these objects, so inside
-one reconcile the only conflicts are the injected ones).
+Not modelled: events, logging, the TLS secret names copied to the revision (functions of the
+package name), resourceVersions in THIS file (Model/C14World.lean has them).  The package's
+Healthy/Installed conditions are the pure function `pkgConditions` (no control flow depends on them).
 -/
 namespace Xp.C14
 
@@ -77,6 +76,11 @@ structure Rev where
   labels : Labels           -- spec.commonLabels, sorted by key
   fin : Bool                -- has a finalizer
   deleting : Bool           -- deletionTimestamp set
+  /-- the other spec fields `Reconcile` copies from the package (`copiedFields`), as the JSON leaves the
+  object serialises to, sorted by path: `packagePullPolicy`, `packagePullSecrets` (names, comma separated),
+  `ignoreCrossplaneConstraints`, `skipDependencyResolution`, `runtimeConfigRef.{apiVersion,kind,name}`,
+  `controllerConfigRef.name`.  A field with `omitempty` that is empty has NO entry. -/
+  extra : Labels := []
   deriving DecidableEq, Repr, Inhabited
 
 structure Spec where
@@ -86,6 +90,9 @@ structure Spec where
   pull : Pull               -- packagePullPolicy
   paused : Bool             -- pause annotation
   labels : Labels           -- commonLabels
+  /-- the remaining spec fields the reconciler copies to the revision (all but `package`, `packagePullPolicy`
+  and `commonLabels`, which are the fields above), as serialised JSON leaves sorted by path -/
+  extra : Labels := []
   deriving DecidableEq, Repr, Inhabited
 
 structure Status where
@@ -216,7 +223,9 @@ def mergeRev (stored d : Rev) : Rev :=
     image := d.image
     labels := mergeLabels stored.labels d.labels
     fin := d.fin || stored.fin
-    deleting := stored.deleting }
+    deleting := stored.deleting
+    -- a leaf the desired object does not serialise (omitempty, empty) is left as stored
+    extra := mergeLabels stored.extra d.extra }
 
 def findRev (n : String) (revs : List Rev) : Option Rev := revs.find? (fun r => r.name = n)
 
@@ -381,6 +390,17 @@ def gcVictimUnfixed (limit : Option Int) (l : List Rev) : Option Rev :=
 def newRev : Rev :=
   { name := "", parent := none, number := 0, state := .unset, ctrl := none, image := "", labels := [], fin := false, deleting := false }
 
+def Pull.str : Pull → String
+  | .unset => "" | .always => "Always" | .never => "Never" | .ifNotPresent => "IfNotPresent"
+
+/-- the serialised leaves of the spec fields `Reconcile` sets on the revision from the package besides image
+and commonLabels (`pr.SetPackagePullPolicy(p.GetPackagePullPolicy())` … `prwr.SetControllerConfigRef(…)`): every
+setter overwrites the in-memory field, so the DESIRED object carries exactly the package's leaves -/
+def copiedExtra (sp : Spec) : Labels :=
+  match sp.pull with
+  | .unset => sp.extra
+  | x => setLabel "packagePullPolicy" x.str sp.extra
+
 /-- the desired current revision as built between the loop and the Apply -/
 def desiredCurrent (p : Pkg) (cur : String) (listed : List Rev) : Rev :=
   let pr0 := (findRev cur listed).getD newRev
@@ -390,6 +410,7 @@ def desiredCurrent (p : Pkg) (cur : String) (listed : List Rev) : Rev :=
   { pr0 with
     name := cur, parent := some p.name, number := num, state := st, image := p.spec.source,
     labels := p.spec.labels,
+    extra := copiedExtra p.spec,
     ctrl := match pr0.ctrl with | none => some p.uid | some o => some o }
 
 def finishStatus (p : Pkg) (cur : String) : P Res :=
@@ -483,6 +504,183 @@ def stepProg (pname : String) : Step → P Res
 /-- a history as a list of (fault plan, program) pairs for `reachHistory` -/
 def historyProgs (pname : String) (h : List (Plan × Step)) : List (Plan × P Res) :=
   h.map fun x => (x.1, stepProg pname x.2)
+
+/-! ### the call skeletons of the mirrored Go functions (tie "a")
+
+Each list is what go/ast extracts from the function of the CURRENT tree (harness/main/c14_dump.go →
+`Xp.Gen.c14Skel*`); `skeleton_*` in Props/C14.lean state the equalities.  Each entry names the model step that
+mirrors it (`—` = no model step, with the reason). -/
+
+/-- `Reconciler.Reconcile`; the flag marks the calls on the complete path (no early return) that reach the
+API server or the revisioner: `skeleton_reconcile_from_model` derives exactly those from `pkgReconcile`. -/
+def skelReconcileTagged : List (String × Bool) :=
+  [("client.Get", true),                    -- reconcileWith: .getPkg
+   ("resource.IgnoreNotFound", false),      -- reconcileWith: `.err .notFound => .ret .gone`
+   ("meta.IsPaused", false),                -- reconcileWith: `if p.spec.paused`
+   ("p.SetConditions", false),              -- … pausedCond := true
+   ("client.Status.Update", false),         -- … .statusPkg { pausedCond := true }, returns
+   ("p.GetCondition", false),               -- reconcileWith: `else if p.status.pausedCond`
+   ("p.CleanConditions", false),            -- … pausedCond := false
+   ("client.Status.Update", false),         -- … .statusPkg { pausedCond := false }, returns
+   ("client.List", true),                   -- reconcileWith: .listRevs
+   ("resource.IgnoreNotFound", false),      -- reconcileWith: `.err .notFound => afterList … []`
+   ("config.PullSecretFor", true),          -- afterList: .listImageConfigs (ImageConfigStore lists ImageConfigs)
+   ("p.SetConditions", false),              -- — Unpacking condition: not modelled
+   ("client.Status.Update", false),         -- afterList: PullSecretFor failed, status error ignored
+   ("pkg.Revision", true),                  -- afterList: revisionName env p (no API call)
+   ("p.SetConditions", false),              -- — Unpacking condition: not modelled
+   ("client.Status.Update", false),         -- afterList: statusThen p .err
+   ("p.SetConditions", false),              -- — Unpacking condition: not modelled
+   ("client.Status.Update", false),         -- afterList: statusThen p .requeue (no digest yet)
+   ("p.SetCurrentRevision", false),         -- finishStatus: curRev := cur
+   ("p.SetCurrentIdentifier", false),       -- finishStatus: curId := p.spec.source
+   ("prs.GetRevisions", false),             -- the `listed` argument of stage2
+   ("rev.SetDesiredState", false),          -- deactLoop: { r with state := .inactive }
+   ("client.Apply", true),                  -- deactLoop: applyRev … true p.uid
+   ("resource.MustBeControllableBy", false),-- applyRev: controllable cur uid
+   ("kerrors.IsConflict", false),           -- deactLoop: `.conflict => .ret (some .requeue)`
+   ("pr.SetRevision", false),               -- desiredCurrent: num
+   ("client.Delete", true),                 -- stage2With: .deleteRev (gcVictim)
+   ("pr.GetCondition", false),              -- pkgConditions: prHealthy = true
+   ("p.GetCondition", false),               -- — only decides whether an event is recorded
+   ("p.SetConditions", false),              -- pkgConditions: healthy := true
+   ("pr.GetCondition", false),              -- pkgConditions: prHealthy = false
+   ("p.SetConditions", false),              -- pkgConditions: healthy := false
+   ("pr.GetCondition", false),              -- pkgConditions: prHealthy = unknown
+   ("p.SetConditions", false),              -- pkgConditions: healthy := unknown
+   ("pr.SetDesiredState", false),           -- desiredCurrent: st
+   ("meta.AddOwnerReference", false),       -- desiredCurrent: ctrl
+   ("client.Apply", true),                  -- applyCurrent: applyRev (desiredCurrent …)
+   ("resource.MustBeControllableBy", false),-- applyRev: controllable cur uid
+   ("kerrors.IsConflict", false),           -- applyCurrent: `.conflict => .ret .requeue`
+   ("client.Update", true),                 -- applyCurrent: .updateRev (commonLabels differ)
+   ("kerrors.IsConflict", false),           -- applyCurrent: `.err .conflict => .ret .requeue`
+   ("p.SetConditions", false),              -- pkgConditions: installed := true (Active)
+   ("p.SetConditions", false),              -- pkgConditions: installed := false (Inactive) when the revision is not Active
+   ("pullBasedRequeue", false),             -- finishStatus: `.done cur (p.spec.pull = .always)`
+   ("client.Status.Update", true)]          -- finishStatus: .statusPkg
+   -- not in the verb set / not modelled: events (r.record.Event), log calls, context.WithTimeout, the field
+   -- copies (`copiedFields`); no `meta.WasDeleted` / `GetDeletionTimestamp` call exists: a terminating revision
+   -- is listed, counted and collected like any other (exec `.listRevs`, `gcVictim`)
+
+def skelReconcile : List String := skelReconcileTagged.map (·.1)
+
+/-- the source call a model request stands for (`none` = issued inside `client.Apply`) -/
+def Req.srcCall : Req → Option String
+  | .getPkg _ => some "client.Get"
+  | .statusPkg _ _ => some "client.Status.Update"
+  | .listRevs _ => some "client.List"
+  | .listImageConfigs => some "config.PullSecretFor"
+  | .getRev _ => some "client.Apply"        -- Apply starts with its Get
+  | .createRev _ _ | .patchRev _ => none    -- … and ends with Create or Patch
+  | .updateRev _ => some "client.Update"
+  | .deleteRev _ => some "client.Delete"
+  | .env _ => none
+
+/-- `PackageRevisioner.Revision` (with its `return`s) -/
+def skelRevision : List String :=
+  ["p.GetPackagePullPolicy",                                   -- revisionName: p.spec.pull
+   "return", "xpkg.FriendlyID", "p.GetName", "p.GetSource",    -- `.never`: .ok (friendlyID p.name p.spec.source)
+   "p.GetCurrentIdentifier", "p.GetSource",                    -- `.ifNotPresent ∧ p.status.curId = p.spec.source`
+   "return", "p.GetCurrentRevision",                           -- … .ok p.status.curRev
+   "name.ParseReference", "p.GetSource", "name.WithDefaultRegistry",  -- env.parseOk p.spec.source (oracle: go-containerregistry)
+   "return",                                                   -- `!parseOk`: .error ()
+   "v1.RefNames", "p.GetPackagePullSecrets",                   -- — pull secrets are passed to the fetcher only (Env.head ignores them)
+   "fetcher.Head",                                             -- env.head p.spec.source
+   "return",                                                   -- `.err _ => .error ()`, `.nil => .ok ""` (errors.Wrap(nil) = nil)
+   "return", "xpkg.FriendlyID", "p.GetName"]                   -- `.digest d => .ok (friendlyID p.name d)`
+
+/-- `xpkg.FriendlyID`: friendlyIDL = toDNSLabelL (name.take 50 ++ '-' :: hash.take 12) -/
+def skelFriendlyID : List String := ["ToDNSLabel", "strings.Join", "truncate", "truncate"]
+
+/-- `xpkg.ToDNSLabel`: dnsLoop (the two WriteByte, `len(s)-1`), trimDash -/
+def skelToDNSLabel : List String := ["cut.WriteByte", "len", "cut.WriteByte", "return", "strings.Trim", "cut.String"]
+
+/-- `xpkg.K8sFetcher.Head`, the fetcher behind `Env.head`: ONE digest per reference — the digest of the manifest
+the reference points at (for a multi-platform image the digest of the INDEX), whether the registry serves
+HEAD or the GET fallback is taken.  The harness runs this function against an in-process registry
+(harness/main/c14_reg.go) and ships that digest as `head`. -/
+def skelFetcherHead : List String :=
+  ["k8schain.New",      -- — the keychain from pull secrets / service account: not modelled (Env.head ignores secrets)
+   "return",            -- … its error: `.err _`
+   "remote.Head",       -- Env.head: `.digest d`
+   "remote.Get",        -- Env.head again: HEAD refused / no descriptor ⇒ GET of the SAME reference, same manifest digest
+   "return", "errors.Wrapf",  -- both failed: `.err _`
+   "return",            -- `&rd.Descriptor`: `.digest d`
+   "return"]            -- `d`: `.digest d`
+
+/-- `pullBasedRequeue`: RequeueAfter for Always, else nothing — `Res.done _ (p.spec.pull = .always)` -/
+def skelPullBasedRequeue : List String := ["return", "return"]
+
+/-- crossplane-runtime `APIPatchingApplicator.Apply` (the module source the harness is linked against) -/
+def skelApply : List String :=
+  ["client.Create",          -- — nameless object with generateName: revisions always have a name
+   "o.DeepCopyObject",       -- the `desired` argument of applyRev
+   "client.Get",             -- applyRev: .getRev
+   "kerrors.IsNotFound",     -- applyRev: `.err .notFound =>`
+   "client.Create",          -- applyRev: .createRev desired hasRV
+   "fn",                     -- applyRev: controllable cur uid (the one ApplyOption passed)
+   "client.Patch"]           -- applyRev: .patchRev desired (merge patch of the whole desired object: mergeRev)
+
+/-- crossplane-runtime `resource.MustBeControllableBy`: `controllable` -/
+def skelMustBeControllableBy : List String :=
+  ["return", "return",            -- — no object metadata: impossible for a typed revision
+   "metav1.GetControllerOf",      -- cur.ctrl
+   "return",                      -- `none => true`
+   "return",                      -- `some c => c = uid` (false)
+   "return"]                      -- … (true)
+
+/-- The package → revision copies of `Reconcile`: (setter, getter, revision spec leaves written, package spec
+leaves read).  Model: `image := p.spec.source`, `labels := p.spec.labels` and `extra := copiedExtra p.spec`
+in `desiredCurrent`; the last entry is the second `SetCommonLabels` before `client.Update`
+(`applyCurrent`: `{ pr with labels := p.spec.labels }`).  The two TLS secret names are functions of the package
+NAME, not of its spec; they are not modelled (never cleared, never edited). -/
+def copiedFields : List (String × String × List String × List String) :=
+  [("pr.SetSource", "p.GetSource", ["image"], ["package"]),
+   ("pr.SetPackagePullPolicy", "p.GetPackagePullPolicy", ["packagePullPolicy"], ["packagePullPolicy"]),
+   ("pr.SetPackagePullSecrets", "p.GetPackagePullSecrets", ["packagePullSecrets"], ["packagePullSecrets"]),
+   ("pr.SetIgnoreCrossplaneConstraints", "p.GetIgnoreCrossplaneConstraints", ["ignoreCrossplaneConstraints"], ["ignoreCrossplaneConstraints"]),
+   ("pr.SetSkipDependencyResolution", "p.GetSkipDependencyResolution", ["skipDependencyResolution"], ["skipDependencyResolution"]),
+   ("pr.SetCommonLabels", "p.GetCommonLabels", ["commonLabels.probe"], ["commonLabels.probe"]),
+   ("prwr.SetRuntimeConfigRef", "pwr.GetRuntimeConfigRef", ["runtimeConfigRef.apiVersion", "runtimeConfigRef.kind", "runtimeConfigRef.name"],
+     ["runtimeConfigRef.apiVersion", "runtimeConfigRef.kind", "runtimeConfigRef.name"]),
+   ("prwr.SetControllerConfigRef", "pwr.GetControllerConfigRef", ["controllerConfigRef.name"], ["controllerConfigRef.name"]),
+   ("prwr.SetTLSServerSecretName", "pwr.GetTLSServerSecretName", ["tlsServerSecretName"], ["(metadata.name)"]),
+   ("prwr.SetTLSClientSecretName", "pwr.GetTLSClientSecretName", ["tlsClientSecretName"], ["(metadata.name)"]),
+   ("pr.SetCommonLabels", "p.GetCommonLabels", ["commonLabels.probe"], ["commonLabels.probe"])]
+
+/-- the revision spec leaves written by the copies that the model keeps OUTSIDE `Rev.extra`: image, commonLabels
+(own fields of `Rev`) and the two TLS names (not modelled) -/
+def ownLeaves : List String := ["image", "commonLabels.probe", "tlsServerSecretName", "tlsClientSecretName"]
+
+/-! ### the package's conditions (Healthy, Installed) -/
+
+inductive Cond where
+  | unset | true | false | unknown
+  deriving DecidableEq, Repr, Inhabited
+
+/-- The package's (Healthy, Installed) condition statuses as a complete `Reconcile` leaves them, from the Healthy
+condition of the current revision AS LISTED (`pr.GetCondition(v1.TypeHealthy)`, read before the Apply) and the
+desiredState of the current revision after Apply/Update.  crossplane-runtime's `GetCondition` answers status
+Unknown for a condition that is not there, so a revision without a Healthy condition - a new one in particular -
+makes the package UnknownHealth: True ⇒ Healthy, False ⇒ Unhealthy, Unknown or none ⇒ UnknownHealth; `Active()`
+then `Inactive()` unless the revision is Active.  No control flow of `Reconcile` depends on them: they are not
+part of `Status` / `Prog`; the harness monitor `package-condition-wrong` evaluates this function on the real run. -/
+def pkgConditions (prHealthy : Cond) (curState : State) : Cond × Cond :=
+  (match prHealthy with
+   | .true => .true
+   | .false => .false
+   | .unknown | .unset => .unknown,
+   if curState = .active then .true else .false)
+
+/-- the leaves of `Rev.extra` / `Spec.extra`: the revision-side leaves of `copiedFields` other than image,
+commonLabels and the TLS names -/
+def extraKeys : List String :=
+  ["controllerConfigRef.name", "ignoreCrossplaneConstraints", "packagePullPolicy", "packagePullSecrets",
+   "runtimeConfigRef.apiVersion", "runtimeConfigRef.kind", "runtimeConfigRef.name", "skipDependencyResolution"]
+
+/-- lookup in a leaf list -/
+def getL (k : String) (l : Labels) : Option String := (l.find? (fun kv => kv.1 = k)).map (·.2)
 
 /-! ### predicates of the property -/
 
